@@ -65,9 +65,16 @@ var configs = map[string]config{
 
 var root = "/verif"
 
+// outRoot is where evidence/ and replays/ are written: root itself, or - when VERIF_REPO points
+// at a scratch copy of the repository (used for the sensitivity experiments, so that several
+// seeded changes can be evaluated in parallel without touching /repo) - a private directory
+// under root/.build/alt/.
+var outRoot = "/verif"
+var altTag = ""
+
 func env(extra ...string) []string {
 	e := os.Environ()
-	e = append(e, "GOFLAGS=-mod=mod", "GOPROXY=off", "GOSUMDB=off", "GOTOOLCHAIN=local", "VERIF_ROOT="+root)
+	e = append(e, "GOFLAGS=-mod=mod", "GOPROXY=off", "GOSUMDB=off", "GOTOOLCHAIN=local", "VERIF_ROOT="+outRoot)
 	return append(e, extra...)
 }
 
@@ -85,9 +92,20 @@ func seed() int64 {
 }
 
 func build(id string, c config) string {
-	bin := filepath.Join(root, ".build", strings.ToLower(id)+".test")
+	bin := filepath.Join(outRoot, ".build", strings.ToLower(id)+".test")
 	os.MkdirAll(filepath.Dir(bin), 0o755)
 	args := []string{"test", "-c", "-tags", "verif", "-o", bin}
+	if repo := os.Getenv("VERIF_REPO"); repo != "" {
+		mod, err := os.ReadFile(filepath.Join(root, "go.mod"))
+		if err != nil {
+			fatal2("%v", err)
+		}
+		alt := filepath.Join(outRoot, "alt.mod")
+		os.WriteFile(alt, []byte(strings.Replace(string(mod), "=> /repo", "=> "+repo, 1)), 0o644)
+		sum, _ := os.ReadFile(filepath.Join(root, "go.sum"))
+		os.WriteFile(filepath.Join(outRoot, "alt.sum"), sum, 0o644)
+		args = append(args, "-modfile", alt)
+	}
 	if c.race {
 		args = append(args, "-race")
 	}
@@ -243,6 +261,15 @@ func main() {
 	if r := os.Getenv("VERIF_ROOT"); r != "" {
 		root = r
 	}
+	outRoot = root
+	if repo := os.Getenv("VERIF_REPO"); repo != "" {
+		altTag = fmt.Sprintf("%016x", fnv(repo))
+		outRoot = filepath.Join(root, ".build", "alt", altTag)
+		os.MkdirAll(outRoot, 0o755)
+		if b, err := os.ReadFile(filepath.Join(root, "known_findings.json")); err == nil {
+			os.WriteFile(filepath.Join(outRoot, "known_findings.json"), b, 0o644)
+		}
+	}
 	if len(os.Args) >= 3 && os.Args[1] == "replay" {
 		replay(os.Args[2])
 		return
@@ -275,7 +302,7 @@ func main() {
 			timeout = 90 * time.Minute
 		}
 	}
-	dir := filepath.Join(root, ".build", "out", id, tier)
+	dir := filepath.Join(outRoot, ".build", "out", id, tier)
 	os.RemoveAll(dir)
 	os.MkdirAll(dir, 0o755)
 
@@ -321,7 +348,7 @@ func main() {
 		if r.out == nil {
 			if strings.Contains(r.log, "github.com/uhppoted/uhppote-core/") && (strings.Contains(r.log, "panic:") || strings.Contains(r.log, "fatal error:")) && !r.timeout {
 				// the process died with a stack through library frames: a crash the harness could not recover
-				crash := filepath.Join(root, "replays", id, fmt.Sprintf("crash-shard%d-seed%d.log", r.shard, seed()))
+				crash := filepath.Join(outRoot, "replays", id, fmt.Sprintf("crash-shard%d-seed%d.log", r.shard, seed()))
 				os.MkdirAll(filepath.Dir(crash), 0o755)
 				os.WriteFile(crash, []byte(r.log), 0o644)
 				violations = append(violations, crash+" :: process crashed with a panic through library frames (unrecoverable, e.g. in a library goroutine)")
@@ -388,7 +415,7 @@ func main() {
 				knownHits[f.ID]++
 				continue
 			}
-			p := filepath.Join(root, "replays", id, fmt.Sprintf("race-%016x.txt", fnv(rr.fingerprint)))
+			p := filepath.Join(outRoot, "replays", id, fmt.Sprintf("race-%016x.txt", fnv(rr.fingerprint)))
 			os.MkdirAll(filepath.Dir(p), 0o755)
 			os.WriteFile(p, []byte(rr.text), 0o644)
 			violations = append(violations, p+" :: data race in the library ["+rr.fingerprint+"]")
@@ -447,8 +474,8 @@ func main() {
 		evd.Assumptions = []string{}
 	}
 	b, _ := json.MarshalIndent(evd, "", " ")
-	os.MkdirAll(filepath.Join(root, "evidence"), 0o755)
-	if err := os.WriteFile(filepath.Join(root, "evidence", id+".json"), b, 0o644); err != nil {
+	os.MkdirAll(filepath.Join(outRoot, "evidence"), 0o755)
+	if err := os.WriteFile(filepath.Join(outRoot, "evidence", id+".json"), b, 0o644); err != nil {
 		harness = append(harness, "cannot write evidence: "+err.Error())
 	}
 
@@ -519,7 +546,7 @@ func runFuzz(id string, c config, bin string, ft fuzzTarget, dir string) (map[st
 	}
 	if m := regexp.MustCompile(`Failing input written to (\S+)`).FindStringSubmatch(log); m != nil {
 		src := filepath.Join(cwd, m[1])
-		dst := filepath.Join(root, "replays", id, "fuzz-"+ft.name+"-"+filepath.Base(m[1]))
+		dst := filepath.Join(outRoot, "replays", id, "fuzz-"+ft.name+"-"+filepath.Base(m[1]))
 		os.MkdirAll(filepath.Dir(dst), 0o755)
 		if b, e := os.ReadFile(src); e == nil {
 			os.WriteFile(dst, b, 0o644)
@@ -562,7 +589,7 @@ func replay(path string) {
 		// fuzz-<Target>-<hash>: run the target on exactly that corpus file
 		parts := strings.SplitN(strings.TrimPrefix(base, "fuzz-"), "-", 2)
 		bin := build(id, c)
-		cwd := filepath.Join(root, ".build", "out", id, "replay-fuzz")
+		cwd := filepath.Join(outRoot, ".build", "out", id, "replay-fuzz")
 		os.RemoveAll(cwd)
 		corpus := filepath.Join(cwd, "testdata", "fuzz", parts[0])
 		os.MkdirAll(corpus, 0o755)
@@ -584,7 +611,7 @@ func replay(path string) {
 		os.Exit(0)
 	}
 	bin := build(id, c)
-	cwd := filepath.Join(root, ".build", "out", id, "replay")
+	cwd := filepath.Join(outRoot, ".build", "out", id, "replay")
 	os.MkdirAll(cwd, 0o755)
 	cmd := exec.Command(bin, "-test.run", "^TestReplay$", "-test.v", "-test.timeout", "10m")
 	cmd.Dir = cwd
